@@ -301,15 +301,16 @@ class State:
         existed then (no dangling / future references)."""
         r, i = z3.Ints("r!live i!live")
         k = z3.Const("k!live", Val)
+        pat = (lambda v_: {}) if self.cfg.get("ground") else (lambda v_: {"patterns": [v_]})  # model search works better without
         if key.startswith("f:") and not key.startswith("f:$"):
             v = z3.Select(a, r)
-            ax = z3.ForAll([r], z3.Implies(smt.is_ref(v), z3.Or(smt.rid(v) < bound, r >= bound)), patterns=[v])
+            ax = z3.ForAll([r], z3.Implies(smt.is_ref(v), z3.Or(smt.rid(v) < bound, r >= bound)), **pat(v))
         elif key in ("lel", "dkeys"):
             v = z3.Select(z3.Select(a, r), i)
-            ax = z3.ForAll([r, i], z3.Implies(smt.is_ref(v), z3.Or(smt.rid(v) < bound, r >= bound)), patterns=[v])
+            ax = z3.ForAll([r, i], z3.Implies(smt.is_ref(v), z3.Or(smt.rid(v) < bound, r >= bound)), **pat(v))
         elif key == "dget":
             v = z3.Select(z3.Select(a, r), k)
-            ax = z3.ForAll([r, k], z3.Implies(smt.is_ref(v), z3.Or(smt.rid(v) < bound, r >= bound)), patterns=[v])
+            ax = z3.ForAll([r, k], z3.Implies(smt.is_ref(v), z3.Or(smt.rid(v) < bound, r >= bound)), **pat(v))
         else:
             return
         # (rows at or above the bound belong to objects that did not exist in that state: a callee that allocates fills
@@ -490,6 +491,9 @@ class State:
             ci = ty.a[0]
             ms = enum_member_terms(ci)
             return z3.Or(*[t == m for m in ms.values()]) if ms else None
+        if k == "enumunion":  # an attribute that different subclasses declare with different enumerations
+            alts = [t == m for ci in ty.a for m in enum_member_terms(ci).values()]
+            return z3.Or(*alts) if alts else None
         if k == "opt":
             inner = self.wt(ty.a[0], t)
             return z3.Or(smt.is_none(t), inner) if inner is not None else None
@@ -1522,7 +1526,10 @@ class Interp:
                     t_ = self.attr_type(sub, attr, fr)
                     if t_ is not None and t_ not in found:
                         found.append(t_)
-                aty = found[0] if len(found) == 1 else (T.ANY if found else None)
+                if len(found) > 1 and all(f_.k == "enum" for f_ in found):
+                    aty = T.Ty("enumunion", *[f_.a[0] for f_ in found])  # a member of one of the declaring subclasses' enums
+                else:
+                    aty = found[0] if len(found) == 1 else (T.ANY if found else None)
             if aty is not None and aty.k == "obj" and aty.a[0].name in LOG_CLASSES:
                 return PLog()
             if aty is not None and aty.k == "opt" and aty.a[0].k == "obj" and aty.a[0].a[0].name in LOG_CLASSES:
